@@ -159,3 +159,10 @@ func VerifPools() (addrs []string, slave []bool) {
 	}
 	return
 }
+
+// VerifAdoptTopology hands a CLUSTER NODES text to the topology code the way the refresh goroutine
+// does after framing a probe reply (updateClusterNodes), synchronously; the next ticker round then
+// applies it to the pools and the slot table.
+func VerifAdoptTopology(text string) error {
+	return EngineGlobal.ClusterNodes.updateClusterNodes(text)
+}
